@@ -41,7 +41,7 @@ func toObjs[T metav1.Object](l []T, err error) ([]metav1.Object, error) {
 }
 
 type joinHandle struct {
-	srcKind, dstKind string
+	srcKind, dstKind           string
 	srcList, dstList, joinList func() ([]metav1.Object, error)
 	midList                    func() ([]metav1.Object, error) // IngressPods: services base
 	srcReady, dstReady         <-chan struct{}
@@ -252,14 +252,14 @@ func joinLabelSels() []*kv.LabelSel {
 }
 
 type joinWorld struct {
-	tr       *tracer
-	r        *kv.Rand
-	h        *joinHandle
-	srcSrv   *kv.Server
-	midSrv   *kv.Server
-	dstSrv   *kv.Server
-	hookN    uint64
-	perturb  bool
+	tr      *tracer
+	r       *kv.Rand
+	h       *joinHandle
+	srcSrv  *kv.Server
+	midSrv  *kv.Server
+	dstSrv  *kv.Server
+	hookN   uint64
+	perturb bool
 }
 
 func (w *joinWorld) hook(component, format string) {
